@@ -227,6 +227,7 @@ type walker struct {
 	unc     *[]uncontrolled
 	edits   []edit
 	fn      string
+	noWrap  *ast.CallExpr // the call of a defer / go statement: never wrapped in an expression
 }
 
 func (w *walker) off(p token.Pos) int { return w.fset.Position(p).Offset }
@@ -364,12 +365,14 @@ func (w *walker) stmt(s ast.Stmt, top bool) {
 		w.stmt(t.Stmt, false)
 	case *ast.GoStmt:
 		w.uncontrolled("go", t.Pos())
+		w.noWrap = t.Call
 		w.expr(t.Call)
 	case *ast.SendStmt:
 		w.uncontrolled("chan-send", t.Pos())
 		w.expr(t.Chan)
 		w.expr(t.Value)
 	case *ast.DeferStmt:
+		w.noWrap = t.Call // `defer x.Add(-1)` must stay a deferred call
 		w.expr(t.Call)
 	case *ast.ExprStmt:
 		w.expr(t.X)
@@ -473,6 +476,15 @@ func (w *walker) call(c *ast.CallExpr) {
 		w.uncontrolled("time."+obj.Name(), c.Pos())
 	case (pkg == "math/rand" || pkg == "math/rand/v2" || pkg == "crypto/rand") && recvName == "":
 		w.uncontrolled(pkg+"."+obj.Name(), c.Pos())
+	case pkg == "sync/atomic" && sig != nil && sig.Results().Len() == 1 && c != w.noWrap:
+		// A pre-emption point right AFTER every value-returning atomic operation, inside
+		// the expression it is part of: `x.Store(x.Load() &^ bit)` is two atomic steps
+		// with a window between them, and statement-level yields cannot enter it.
+		id := len(*w.sites)
+		ps := w.fset.Position(c.Pos())
+		*w.sites = append(*w.sites, site{ID: id, File: filepath.ToSlash(w.relFile), Line: ps.Line, Func: w.fn, Flags: flagHot})
+		w.edits = append(w.edits, edit{off: w.off(c.Pos()), end: w.off(c.Pos()), text: "vsimrt.Thru("})
+		w.edits = append(w.edits, edit{off: w.off(c.End()), end: w.off(c.End()), text: fmt.Sprintf(", %d)", id)})
 	}
 	if repl != "" {
 		w.edits = append(w.edits, edit{off: w.off(c.Pos()), end: w.off(c.End()), text: repl})
